@@ -6,6 +6,7 @@
 //! Limb counts, shift amounts, bit indices: decimal.  Values: hex.  Signed values: hex of the two's complement limbs.
 use crate::util::*;
 use crypto_bigint::modular::{MontyForm, MontyParams};
+use crypto_bigint::{MulMod, MultiExponentiateBoundedExp, RandomMod};
 use crypto_bigint::subtle::{
     Choice, ConditionallyNegatable, ConditionallySelectable, ConstantTimeEq, ConstantTimeGreater, ConstantTimeLess,
     CtOption,
@@ -483,6 +484,122 @@ inv_gcd!(inv_odd_mod_4, gcd_4, 4);
 inv_gcd!(inv_odd_mod_6, gcd_6, 6);
 inv_gcd!(inv_odd_mod_8, gcd_8, 8);
 
+// ---- special-modulus forms, mul_mod, div_by_2, rem_limb, mac_by_limb, Montgomery parameters
+fn special<const N: usize>(a: &[&str]) -> Option<String> {
+    let (x, y, c) = (arg!(uint::<N>(a[1])), arg!(uint::<N>(a[2])), arg!(limb(a[3])));
+    Some(format!(
+        "{} {} {}",
+        uhex(&x.add_mod_special(&y, c)),
+        uhex(&x.sub_mod_special(&y, c)),
+        uhex(&x.mul_mod_special(&y, c))
+    ))
+}
+fn mul_mod<const N: usize, const W: usize>(a: &[&str]) -> Option<String>
+where
+    Uint<N>: crypto_bigint::Concat<Output = Uint<W>>,
+    Uint<W>: crypto_bigint::Split<Output = Uint<N>>,
+{
+    let (x, y, p) = (arg!(uint::<N>(a[1])), arg!(uint::<N>(a[2])), arg!(uint::<N>(a[3])));
+    let nz: NonZero<Uint<N>> = arg!(Option::from(NonZero::new(p)));
+    Some(format!("{} {}", uhex(&x.mul_mod::<W>(&y, &nz)), uhex(&x.double_mod(&p))))
+}
+fn mul_mod_vartime<const N: usize>(a: &[&str]) -> Option<String> {
+    let (x, y, p) = (arg!(uint::<N>(a[1])), arg!(uint::<N>(a[2])), arg!(uint::<N>(a[3])));
+    let nz: NonZero<Uint<N>> = arg!(Option::from(NonZero::new(p)));
+    // the inherent `_vartime` form, and the trait form `MulMod::mul_mod` (not named vartime; forwards to the former)
+    Some(format!("{} {}", uhex(&x.mul_mod_vartime(&y, &nz)), uhex(&MulMod::mul_mod(&x, &y, &p))))
+}
+fn rem_limb<const N: usize>(a: &[&str]) -> Option<String> {
+    let (x, d) = (arg!(uint::<N>(a[1])), arg!(limb(a[2])));
+    Some(lhex(x.rem_limb(arg!(Option::from(NonZero::new(d))))))
+}
+fn mac_by_limb<const N: usize>(a: &[&str]) -> Option<String> {
+    let (x, y, c, d) = (arg!(uint::<N>(a[1])), arg!(uint::<N>(a[2])), arg!(limb(a[3])), arg!(limb(a[4])));
+    let (v, cy) = hooks::uint_mac_by_limb(&x, &y, c, d);
+    Some(format!("{} {}", uhex(&v), lhex(cy)))
+}
+fn monty_params<const N: usize, const W: usize>(a: &[&str]) -> Option<String>
+where
+    Uint<N>: crypto_bigint::Concat<Output = Uint<W>>,
+    Uint<W>: crypto_bigint::Split<Output = Uint<N>>,
+{
+    let m = arg!(uint::<N>(a[1]));
+    let params = MontyParams::new(arg!(Option::from(Odd::new(m))));
+    let (one, r2, r3, ni, mlz) = params.verif_fields();
+    Some(format!("{} {} {} {} {:x}", uhex(&one), uhex(&r2), uhex(&r3), lhex(ni), mlz))
+}
+fn div_by_2<const N: usize>(a: &[&str]) -> Option<String> {
+    let (x, m) = (arg!(uint::<N>(a[1])), arg!(uint::<N>(a[2])));
+    let bx = arg!(boxed(a[1], N));
+    let bm = arg!(boxed(a[2], N));
+    Some(format!(
+        "{} {}",
+        uhex(&hooks::div_by_2(&x, &arg!(Option::from(Odd::new(m))))),
+        bhex(&hooks::div_by_2_boxed(&bx, &arg!(Option::from(Odd::new(bm)))))
+    ))
+}
+fn lincomb<const N: usize>(a: &[&str]) -> Option<String> {
+    let (mlz, m) = (arg!(dec32(a[1])), arg!(uint::<N>(a[2])));
+    let params = MontyParams::new_vartime(arg!(Option::from(Odd::new(m))));
+    let mut forms = Vec::new();
+    for t in &a[3..] {
+        forms.push(MontyForm::new(&arg!(uint::<N>(t)), params));
+    }
+    let prods: Vec<(&MontyForm<N>, &MontyForm<N>)> = forms.chunks(2).map(|c| (&c[0], &c[1])).collect();
+    let (_, _, _, ni, own_mlz) = params.verif_fields();
+    let raw = hooks::lincomb_monty_form(&prods, params.modulus(), ni, mlz);
+    // out of Montgomery form: a product with the Montgomery form of 1·R⁻¹ … simply `MontyForm::retrieve` of a form holding `raw`
+    let mut holder = MontyForm::new(&Uint::<N>::ZERO, params);
+    *holder.as_montgomery_mut() = raw;
+    let v = holder.retrieve();
+    if mlz == own_mlz {
+        // the public route must agree with the hook when the window is the parameter set's own
+        let pubv = MontyForm::lincomb_vartime(&prods).retrieve();
+        if pubv != v {
+            return Some(format!("routes-differ:{}:{}", uhex(&v), uhex(&pubv)));
+        }
+    }
+    Some(uhex(&v))
+}
+fn multi_exp<const N: usize>(a: &[&str]) -> Option<String> {
+    let (ebits, m) = (arg!(dec32(a[1])), arg!(uint::<N>(a[2])));
+    let params = MontyParams::new_vartime(arg!(Option::from(Odd::new(m))));
+    let mut bes: Vec<(MontyForm<N>, Uint<N>)> = Vec::new();
+    for c in a[3..].chunks(2) {
+        bes.push((MontyForm::new(&arg!(uint::<N>(c[0])), params), arg!(uint::<N>(c[1]))));
+    }
+    let r = <MontyForm<N> as MultiExponentiateBoundedExp<Uint<N>, [(MontyForm<N>, Uint<N>)]>>::multi_exponentiate_bounded_exp(&bes, ebits);
+    Some(uhex(&r.retrieve()))
+}
+/// an RNG that replays the given words (and panics when they run out: the generator provides enough)
+struct Replay(Vec<u64>, usize);
+impl rand_core::RngCore for Replay {
+    fn next_u32(&mut self) -> u32 {
+        self.next_u64() as u32
+    }
+    fn next_u64(&mut self) -> u64 {
+        let w = self.0[self.1];
+        self.1 += 1;
+        w
+    }
+    fn fill_bytes(&mut self, dst: &mut [u8]) {
+        for ch in dst.chunks_mut(8) {
+            let w = self.next_u64().to_le_bytes();
+            ch.copy_from_slice(&w[..ch.len()]);
+        }
+    }
+}
+fn random_mod<const N: usize>(a: &[&str]) -> Option<String> {
+    let m = arg!(uint::<N>(a[1]));
+    let mut ws = Vec::new();
+    for t in &a[2..] {
+        ws.push(arg!(word(t)));
+    }
+    let mut rng = Replay(ws, 0);
+    let nz: NonZero<Uint<N>> = arg!(Option::from(NonZero::new(m)));
+    Some(uhex(&Uint::<N>::random_mod(&mut rng, &nz)))
+}
+
 pub fn dispatch(op: &str, a: &[&str]) -> Option<String> {
     let name = op.strip_prefix("c01.leak.").or_else(|| op.strip_prefix("c01.hook."))?;
     let n = || a.first().and_then(|s| dec(s));
@@ -586,6 +703,53 @@ pub fn dispatch(op: &str, a: &[&str]) -> Option<String> {
         "boxed_modarith" => { chk!(4); boxed_modarith(a) }
         "boxed_bits" => { chk!(4); boxed_bits(a) }
         "boxed_inv_mod2k" => { chk!(3); boxed_inv_mod2k(a) }
+        "special" => { chk!(4); with_w!(arg!(n()), special, a) }
+        "mul_mod" => {
+            chk!(4);
+            match arg!(n()) {
+                1 => mul_mod::<1, 2>(a),
+                2 => mul_mod::<2, 4>(a),
+                3 => mul_mod::<3, 6>(a),
+                4 => mul_mod::<4, 8>(a),
+                6 => mul_mod::<6, 12>(a),
+                8 => mul_mod::<8, 16>(a),
+                _ => Some("unsupported-width".to_string()),
+            }
+        }
+        "mul_mod_vartime" => { chk!(4); with_small!(arg!(n()), mul_mod_vartime, a) }
+        "rem_limb" => { chk!(3); with_w!(arg!(n()), rem_limb, a) }
+        "mac_by_limb" => { chk!(5); with_w!(arg!(n()), mac_by_limb, a) }
+        "monty_params" => {
+            chk!(2);
+            match arg!(n()) {
+                1 => monty_params::<1, 2>(a),
+                2 => monty_params::<2, 4>(a),
+                3 => monty_params::<3, 6>(a),
+                4 => monty_params::<4, 8>(a),
+                6 => monty_params::<6, 12>(a),
+                8 => monty_params::<8, 16>(a),
+                _ => Some("unsupported-width".to_string()),
+            }
+        }
+        "div_by_2" => { chk!(3); with_small!(arg!(n()), div_by_2, a) }
+        "lincomb" => {
+            if a.len() < 5 || a.len() % 2 == 0 {
+                return Some(BAD.to_string());
+            }
+            with_small!(arg!(n()), lincomb, a)
+        }
+        "multi_exp" => {
+            if a.len() < 5 || a.len() % 2 == 0 {
+                return Some(BAD.to_string());
+            }
+            with_small!(arg!(n()), multi_exp, a)
+        }
+        "random_mod" => {
+            if a.len() < 3 {
+                return Some(BAD.to_string());
+            }
+            with_small!(arg!(n()), random_mod, a)
+        }
         "boxed_shr1" => { chk!(2); boxed_shr1(a) }
         "unsat" => {
             chk!(4);
